@@ -130,6 +130,12 @@ TResched ==
   /\ l' = l + 1
   /\ UNCHANGED << tid, closed >>
 
+TRewrite ==
+  /\ HasEv("rewrite")
+  /\ Rewrite(Ev.stored)
+  /\ l' = l + 1
+  /\ UNCHANGED << tid, closed >>
+
 TRestart ==
   /\ HasEv("restart")
   /\ closed
@@ -156,7 +162,7 @@ Diag ==
   /\ FALSE
   /\ UNCHANGED << tid, l, closed >>
 
-TNext == Silent \/ TCall \/ TDone \/ TFailed \/ TRejected \/ TToggle \/ TSetArgs \/ TResched \/ TRestart \/ Diag
+TNext == Silent \/ TCall \/ TDone \/ TFailed \/ TRejected \/ TToggle \/ TSetArgs \/ TResched \/ TRewrite \/ TRestart \/ Diag
 TSpec == TInit /\ [][TNext]_tvars
 
 Accepted == closed /\ l = Len(Traces[tid].events) + 1
